@@ -177,6 +177,26 @@ fn check_reopen(t: T) -> Check {
     check_time(t)
 }
 
+/// The same round trip with the creation time at a chosen place in the
+/// summary stream: a comments string of `pad` bytes is stored in front of it,
+/// so that the eight bytes of the time fall on, before and across the
+/// boundaries of the blocks a container stream is read in.
+fn check_reopen_at(pad: usize) -> Check {
+    // a time whose high and low halves both matter
+    let st = std::time::UNIX_EPOCH + std::time::Duration::new(1_234_567_890, 123_456_700);
+    let mut pkg = Package::create(PackageType::Installer, Cursor::new(Vec::new())).map_err(|e| Fail::new(format!("{P} create-failed"), e.to_string()))?;
+    pkg.summary_info_mut().set_comments("c".repeat(pad));
+    pkg.summary_info_mut().set_creation_time(st);
+    let before = pkg.summary_info().creation_time().map(T::of_system);
+    let cursor = pkg.into_inner().map_err(|e| Fail::new(format!("{P} save-failed"), e.to_string()))?;
+    let pkg = Package::open(Cursor::new(cursor.into_inner())).map_err(|e| Fail::new(format!("{P} reopen-failed"), e.to_string()))?;
+    let after = pkg.summary_info().creation_time().map(T::of_system);
+    if before != after {
+        return Err(Fail::new(format!("{P} reopen-differs-by-layout"), format!("with {pad} bytes of comments stored before it, the creation time reads {before:?} before saving and {after:?} after reopening")));
+    }
+    Ok(())
+}
+
 fn anchors() -> Vec<i128> {
     // the ends of the representable range, the Unix epoch, and every point
     // where an intermediate quantity of a conversion reaches a 64-bit limit:
@@ -295,6 +315,20 @@ pub fn run(ctx: &Ctx) -> Report {
     }, &mut st);
     rep.push(v);
 
+    // 5. the position of the value in the stream: every padding length that
+    // moves it across a 4 KiB, 8 KiB or 16 KiB boundary of the stream
+    let mut pads: Vec<usize> = Vec::new();
+    for centre in [4_096usize, 8_192, 16_384] {
+        pads.extend(centre - 260..centre + 40);
+    }
+    let v = par_enumerate(ctx, "layout", &pads, |pad, st| {
+        st.eval();
+        st.nontrivial(&("layout", *pad));
+        st.class("reopen:layout");
+        check_reopen_at(*pad)
+    }, &mut st);
+    rep.push(v);
+
     rep.stats = st;
     rep
 }
@@ -305,6 +339,7 @@ pub fn replay(_ctx: &Ctx, doc: &J) -> Check {
     match kind {
         "time" => check_time(serde_json::from_value(doc["case"].clone()).map_err(bad)?),
         "reopen" => check_reopen(serde_json::from_value(doc["case"].clone()).map_err(bad)?),
+        "layout" => check_reopen_at(doc["case"].as_u64().unwrap_or(0) as usize),
         "pair" => {
             let (a, b): (T, T) = serde_json::from_value(doc["case"].clone()).map_err(bad)?;
             check_pair(a, b)
